@@ -151,12 +151,16 @@ func runSysRace(x *X) {
 				switch c.Intn(8, "fault") {
 				case 0:
 					rs.status = 500
+					x.Fault("backend-5xx")
 				case 1:
 					rs.status = 502
+					x.Fault("backend-5xx")
 				case 2:
 					rs.fault = "rst-after-headers"
+					x.Fault("backend-reset-after-headers")
 				case 3:
 					rs.fault = "short-body"
+					x.Fault("backend-short-body")
 				}
 				ex.resp = rs
 				ops = append(ops, op{kind: "req", ex: ex})
